@@ -254,6 +254,16 @@ func checkC15(c *Ctx) {
 			}
 		}
 	}
+	if sf := c.Method(zp, "Logger", "Sugar"); sf != nil && sugarK == -999 {
+		// ... or through the option that does exactly that (AddCallerSkip is additive, checked below)
+		for _, cl := range Calls(sf) {
+			if IsCallTo(cl, "go.uber.org/zap.AddCallerSkip") {
+				if v, ok := ConstInt(cl.Common().Args[0]); ok {
+					sugarK = v
+				}
+			}
+		}
+	}
 	stdK := int64(-999)
 	stdAgree := true
 	nStd := 0
@@ -273,6 +283,14 @@ func checkC15(c *Ctx) {
 					stdK = v
 				} else if stdK != v {
 					stdAgree = false
+				}
+			}
+		}
+		if !has {
+			// delegating to another of the bridges takes over its constant
+			for _, cl := range Calls(f) {
+				if IsCallTo(cl, "go.uber.org/zap.NewStdLog", "go.uber.org/zap.NewStdLogAt", "go.uber.org/zap.redirectStdLogAt") {
+					has = true
 				}
 			}
 		}
@@ -433,6 +451,32 @@ func c15Conversions(c *Ctx, sugarK int64) {
 				rt := TypeName(deref(callee.Signature.Recv().Type()))
 				if rt == "zap.Logger" || rt == "zap.SugaredLogger" {
 					d := valDelta(fn, x.Call.Args[0], depth+1).add(delta(callee, depth+1), 1)
+					if callee.Name() == "WithOptions" && len(x.Call.Args) == 2 {
+						// options given right here: AddCallerSkip(k) adds k (it is additive, R15.1); any other option leaves the skip alone
+						if sl, ok := x.Call.Args[1].(*ssa.Slice); ok {
+							if va, ok := sl.X.(*ssa.Alloc); ok && va.Referrers() != nil {
+								for _, r := range *va.Referrers() {
+									ia, ok := r.(*ssa.IndexAddr)
+									if !ok || ia.Referrers() == nil {
+										continue
+									}
+									for _, r2 := range *ia.Referrers() {
+										st, ok := r2.(*ssa.Store)
+										if !ok {
+											continue
+										}
+										if oc, ok := Strip(st.Val).(*ssa.Call); ok && IsCallTo(oc, "go.uber.org/zap.AddCallerSkip") {
+											if k, isC := ConstInt(oc.Call.Args[0]); isC {
+												d = d.add(lin{c: k}, 1)
+											} else {
+												d = d.add(unknown("AddCallerSkip("+Desc(oc.Call.Args[0])+")"), 1)
+											}
+										}
+									}
+								}
+							}
+						}
+					}
 					// plus callerSkip adjustments applied in THIS function to the call's result
 					for _, st := range FieldStoresOf(fn, c.Named(zp, "Logger")) {
 						if st.Field == "callerSkip" && Strip(st.Addr.X) == ssa.Value(x) {
@@ -636,9 +680,27 @@ func c15Attach(c *Ctx) {
 				}
 			}
 			c.Check(len(atoms) == 1 && atoms[0] == "record.Level >= h.addStackAt", "R15.4", h.String(), "stack-iff-threshold", ss.Pos(), "a stack is attached exactly when record.Level >= addStackAt, compared on the slog level itself (guards %v)", atoms)
-			c.Check(Desc(ss.Val) == "Take((3 + h.callerSkip))", "R15.4", h.String(), "stack-skip-expr", ss.Pos(), "the trace is taken with skip 3 + callerSkip (%s)", Desc(ss.Val))
+			c.Check(Desc(ss.Val) == "Take((3 + h.callerSkip))" || Desc(ss.Val) == "Take((h.callerSkip + 3))", "R15.4", h.String(), "stack-skip-expr", ss.Pos(), "the trace is taken with skip 3 + callerSkip (%s)", Desc(ss.Val))
 			ga := AtomStrings(Guards(cs))
-			c.Check(containsS(ga, "h.addCaller") && containsS(ga, "record.PC != 0"), "R15.4", h.String(), "caller-from-record-pc", cs.Pos(), "the caller comes from the PC slog recorded, under addCaller (guards %v)", ga)
+			// the frame is resolved from record.PC (directly or in a helper that is handed record.PC)
+			fromPC, frames := false, false
+			for _, f := range Region(h) {
+				AllInstrs(f, func(i ssa.Instruction) {
+					switch x := i.(type) {
+					case *ssa.Store:
+						var d string
+						Bound(func() { d = Desc(x.Val) })
+						if d == "record.PC" {
+							fromPC = true
+						}
+					case *ssa.Call:
+						if IsCallTo(x, "runtime.CallersFrames") {
+							frames = true
+						}
+					}
+				})
+			}
+			c.Check(containsS(ga, "h.addCaller") && fromPC && frames, "R15.4", h.String(), "caller-from-record-pc", cs.Pos(), "the caller is resolved with runtime.CallersFrames from the PC slog recorded, under addCaller (guards %v)", ga)
 		}
 	}
 }
